@@ -166,6 +166,16 @@ pub struct World {
     /// nodes where the roster the implementation produced differs from what the scripted operations name:
     /// (node path, expected, implementation)
     pub roster_mismatches: Vec<(Vec<usize>, Vec<String>, Vec<String>)>,
+    /// for every invitation in `welcomes`: path of the node whose state the joiner must reach by accepting it
+    pub welcome_nodes: Vec<Vec<usize>>,
+    /// "original", "replay-new-wrapper", "forged-same-mls-group-id", ...
+    pub welcome_kinds: Vec<String>,
+    /// joiner clients as they were before they saw their invitation
+    pub prejoin: BTreeMap<String, Client>,
+    /// published key-package events by owner
+    pub key_packages: BTreeMap<String, Event>,
+    /// clients of members that were removed, as they were when they dropped out of the reference run
+    pub graveyard: BTreeMap<String, Client>,
 }
 
 #[derive(Debug)]
@@ -212,6 +222,7 @@ pub fn build_world(sc: &Scenario, backend: Bk) -> Result<World, GenError> {
     let names_by_pk: BTreeMap<String, String> = all.iter().map(|(n, c)| (c.pk().to_hex(), n.clone())).collect();
     let creator = &sc.members[0];
     let kps: Vec<Event> = sc.members[1..].iter().map(|n| all[n].key_package_event()).collect();
+    let kps_copy = kps.clone();
     let admins: Vec<nostr::PublicKey> = sc.admins.iter().map(|n| all[n].pk()).collect();
     let cfgd = NostrGroupConfigData::new(
         "lab".into(),
@@ -250,7 +261,16 @@ pub fn build_world(sc: &Scenario, backend: Bk) -> Result<World, GenError> {
         secrets: Vec::new(),
         settle_order: Vec::new(),
         roster_mismatches: Vec::new(),
+        welcome_nodes: Vec::new(),
+        welcome_kinds: Vec::new(),
+        prejoin: BTreeMap::new(),
+        key_packages: BTreeMap::new(),
+        graveyard: BTreeMap::new(),
     };
+    for (i, n) in sc.members[1..].iter().enumerate() {
+        w.key_packages.insert(n.clone(), kps_copy[i].clone());
+        w.welcome_nodes.push(vec![]);
+    }
 
     // root node clients
     let mut root_clients: BTreeMap<String, Client> = BTreeMap::new();
@@ -324,6 +344,9 @@ pub fn build_world(sc: &Scenario, backend: Bk) -> Result<World, GenError> {
         }
     }
     w.secrets.push(("image_key".into(), vec![8u8; 32]));
+    while w.welcome_kinds.len() < w.welcomes.len() {
+        w.welcome_kinds.push("original".into());
+    }
     Ok(w)
 }
 
@@ -411,8 +434,9 @@ fn expand(
                 with_mdk!(c, m => m.update_group_data(&gid, NostrGroupDataUpdate::new().admins(pks))).map_err(ge(&label))?.evolution_event
             }
             ActKind::Add(who) => {
-                let o = outsiders.get(who).ok_or(GenError(format!("unknown outsider {who}")))?;
+                let o = outsiders.get(who).or_else(|| w.graveyard.get(who)).ok_or(GenError(format!("unknown outsider {who}")))?;
                 let kp = o.key_package_event();
+                w.key_packages.insert(who.clone(), kp.clone());
                 let r = with_mdk!(c, m => m.add_members(&gid, &[kp])).map_err(ge(&label))?;
                 welcome = r.welcome_rumors.clone();
                 r.evolution_event
@@ -511,6 +535,8 @@ fn expand(
             let still_member = o.as_ref().map(|o| o.own_leaf && is_active(o)).unwrap_or(false);
             if still_member {
                 next.insert(n.clone(), f);
+            } else {
+                w.graveyard.insert(n.clone(), f);
             }
         }
         if !ok {
@@ -519,13 +545,15 @@ fn expand(
         }
         // joiners
         if let (ActKind::Add(who), Some(rumors)) = (&a.kind, &p.welcome) {
-            if let Some(j) = outsiders.get(who) {
+            if let Some(j) = outsiders.get(who).or_else(|| w.graveyard.get(who)) {
                 let jf = j.fork();
+                w.prejoin.insert(who.clone(), j.fork());
                 let wid = EventId::from_slice(&sha2_32(format!("welcome-{}", w.pool[p.pool_idx].label).as_bytes())).unwrap();
                 for r in rumors {
                     let wl = with_mdk!(jf, m => m.process_welcome(&wid, r)).map_err(ge("joiner process_welcome"))?;
                     with_mdk!(jf, m => m.accept_welcome(&wl)).map_err(ge("joiner accept_welcome"))?;
                     w.welcomes.push((wid, r.clone(), who.clone()));
+                    w.welcome_nodes.push(child_path.clone());
                 }
                 next.insert(who.clone(), jf);
             }
